@@ -142,7 +142,7 @@ def detachFrom (kind : Kind) (t : Tree) : Tree :=
   | _ => (t.setParent none).setPath []
 
 /-- builtin `clear()` of the payload. Unpatched, the removed children keep their beliefs
-(F33); patched, they are detached. Either way they become roots of their own. -/
+(F78); patched, they are detached. Either way they become roots of their own. -/
 def dropAll (cfg : Cfg) (f : Forest) (t : Nat) (m : Meta) (its : Items) : Forest :=
   addRoots (f.mapAt t (fun _ _ => []))
     ((childNodes its).map (fun c => if cfg.detachOnRemove then detachFrom m.kind c else c))
